@@ -134,6 +134,27 @@ def make_exact(cases):
                     ctx.close(f'exact-after-inplace-change-of-H[{integ}]', float(np.linalg.norm(refs.dense_state(p2.A) - ex2) / np.linalg.norm(ex2)), 1e-9,
                               'after an in-place change of the MPO the evolution does not follow the Hamiltonian that is passed in', detail)
                     H.A[site] *= 1.0 / c
+                elif L >= 2:
+                    # history: evolve a copy, EDIT one of its tensors in place so that shape and Frobenius norm are kept but the canonical form is not (two
+                    # entries rescaled against each other), evolve again: exact with respect to what the state is NOW
+                    p3 = copy.deepcopy(psi)
+                    fnc(H, p3, dt, 1, numiter_lanczos=BIG)
+                    k_ = int(rng.integers(1, L))
+                    T_ = p3.A[k_]
+                    nz_ = np.argwhere(np.abs(T_) > 1e-3)
+                    if len(nz_) >= 2 and tuple(nz_[0]) != tuple(nz_[-1]):
+                        a_, b_ = tuple(nz_[0]), tuple(nz_[-1])
+                        x_, y_ = T_[a_], T_[b_]
+                        T_[a_] = x_ * 0.5
+                        T_[b_] = y_ * np.sqrt(abs(x_) ** 2 * 0.75 + abs(y_) ** 2) / abs(y_)
+                        v_e = refs.dense_state(p3.A)
+                        n_e = float(np.linalg.norm(v_e))
+                        if n_e > 1e-6:
+                            r_e = fnc(H, p3, dt, nsteps, numiter_lanczos=BIG)
+                            ex3 = expm(-dt * nsteps * mH) @ (v_e / n_e)
+                            ctx.close(f'exact-after-inplace-edit-of-the-state[{integ}]', float(np.linalg.norm(refs.dense_state(p3.A) - ex3) / np.linalg.norm(ex3)), 1e-9,
+                                      'after an in-place edit of an evolved state the next evolution does not start from the edited state', detail)
+                            ctx.close(f'return-is-norm-of-edited-state[{integ}]', abs(float(r_e) - n_e), 1e-10 * max(1.0, n_e), 'return value != norm of the edited state', detail)
             elif cls == 'M':
                 # known finding F5: complete manifold with mixed saturation carries the O(dt^3) splitting error of the integrator
                 x = abs(dt) * nH
